@@ -1745,11 +1745,7 @@ class CacheConfiguration(ConfigurationBase):
                 else:
                     priority = 100
 
-                cache_dir = self.cache_dir()
-
-                lock_dir = self.context.globals.get_value('cache.tile_lock_dir')
-                if not lock_dir:
-                    lock_dir = os.path.join(cache_dir, 'tile_locks')
+                lock_dir = self.lock_dir()
 
                 global_directory_permissions = self.context.globals.get_value('directory_permissions', self.conf,
                                                                          global_key='cache.directory_permissions')
